@@ -78,7 +78,76 @@ class Aff:
         return r
 
 
+POLY = False      # polynomial mode (R-POLY, C01): products of non-constant forms become sympy polynomials
+
+
+class Poly:
+    """A polynomial over Q in the coefficient symbols (sympy expression, kept expanded); in expression mode
+    (POLY == "expr") any closed-form scalar expression."""
+    __slots__ = ("e",)
+
+    def __init__(self, e):
+        import sympy as sp
+        self.e = sp.expand(e) if POLY != "expr" else e
+
+    def __repr__(self):
+        return "P(%s)" % self.e
+
+    def __eq__(self, o):
+        return isinstance(o, Poly) and self.e == o.e
+
+    def __hash__(self):
+        return hash(self.e)
+
+    def is_const(self):
+        return self.e.is_number
+
+
+def to_sym(x):
+    import sympy as sp
+    if isinstance(x, Poly):
+        return x.e
+    if isinstance(x, Aff):
+        e = sp.Rational(x.c.numerator, x.c.denominator)
+        for k, v in x.t.items():
+            e += sp.Rational(v.numerator, v.denominator) * sp.Symbol(k)
+        return e
+    raise TypeError(x)
+
+
+def from_sym(e):
+    """Back to Aff when the expression is affine with rational coefficients (keeps table code working)."""
+    import sympy as sp
+    e = sp.expand(e)
+    try:
+        p = sp.Poly(e, *sorted(e.free_symbols, key=str)) if e.free_symbols else None
+    except sp.PolynomialError:
+        return Poly(e) if POLY == "expr" else TOP     # expression mode (R-SERIES): keep transcendental closed forms
+    if p is None:
+        return Aff(Fraction(int(sp.numer(e)), int(sp.denom(e)))) if e.is_Rational else Poly(e)
+    if p.total_degree() <= 1 and all(c.is_Rational for c in p.coeffs()):
+        a = Aff(0)
+        for mon, c in p.terms():
+            f = Fraction(int(sp.numer(c)), int(sp.denom(c)))
+            if sum(mon) == 0:
+                a = a + Aff(f)
+            else:
+                a = a + Aff(0, {str(p.gens[mon.index(1)]): f})
+        return a
+    return Poly(e)
+
+
 def amul(a, b):
+    if POLY and isinstance(a, (Aff, Poly)) and isinstance(b, (Aff, Poly)) and not (isinstance(a, Aff) and a.is_const()) and not (isinstance(b, Aff) and b.is_const()):
+        return from_sym(to_sym(a) * to_sym(b))
+    if isinstance(a, Poly) or isinstance(b, Poly):
+        if isinstance(a, (Aff, Poly)) and isinstance(b, (Aff, Poly)):
+            return from_sym(to_sym(a) * to_sym(b))
+        return TOP
+    return _amul(a, b)
+
+
+def _amul(a, b):
     if a is TOP or b is TOP or a is None or b is None:
         if isinstance(a, Aff) and a.is_const() and a.c == 0:
             return Aff(0)
@@ -93,6 +162,14 @@ def amul(a, b):
 
 
 def aadd(a, b, sign=1):
+    if isinstance(a, Poly) or isinstance(b, Poly):
+        if isinstance(a, (Aff, Poly)) and isinstance(b, (Aff, Poly)):
+            return from_sym(to_sym(a) + sign * to_sym(b))
+        return TOP
+    return _aadd(a, b, sign)
+
+
+def _aadd(a, b, sign=1):
     if a is TOP or b is TOP or a is None or b is None:
         return TOP
     return a + (b if sign > 0 else -b)
@@ -368,6 +445,8 @@ class Sym:
                         val = Mat(dim[0], dim[1])
                     else:
                         val = self.ev(init, env)
+                        if isinstance(val, ElemView) and not d.get("ref"):
+                            val = scalarize(val)      # a scalar local initialised from a coefficient
                         m = as_mat(val)
                         if m is not None and not d.get("ref"):
                             val = m.copy()
@@ -464,6 +543,8 @@ class Sym:
                 return Aff(n["iv"])
             if n.get("name") == "_":
                 return None
+            if str(n.get("qn", "")).endswith("::eps") and "Constants<double>" in str(n.get("qn")):
+                return Aff(Fraction(100, 2 ** 52))
             return TOP
         if k in ("CXXFunctionalCastExpr", "CXXStaticCastExpr", "CStyleCastExpr", "CXXConstCastExpr"):
             return self.ev((n.get("ch") or [None])[0], env)
@@ -542,19 +623,38 @@ class Sym:
             return self.ev(n["ch"][0], env)
         return TOP
 
+    def extra_call(self, n, env, k, fn, obj, args, name, cls, dim):
+        return NotImplemented
+
     def neg(self, v):
         m = as_mat(v)
         if m is not None:
             o = Mat(m.R, m.C)
-            o.cells = [(-x if isinstance(x, Aff) else TOP) for x in m.cells]
+            o.cells = [(-x if isinstance(x, Aff) else (from_sym(-x.e) if isinstance(x, Poly) else TOP)) for x in m.cells]
             return o
         if isinstance(v, Aff):
             return -v
+        if isinstance(v, Poly):
+            return from_sym(-v.e)
         return TOP
 
     def arith(self, op, a, b):
         ma, mb = as_mat(a), as_mat(b)
         if ma is None and mb is None:
+            if (isinstance(a, Poly) or isinstance(b, Poly)) and isinstance(a, (Aff, Poly)) and isinstance(b, (Aff, Poly)):
+                if op == "+":
+                    return aadd(a, b)
+                if op == "-":
+                    return aadd(a, b, -1)
+                if op == "*":
+                    return amul(a, b)
+                if op == "/" and isinstance(b, Aff) and b.is_const() and b.c != 0:
+                    return from_sym(to_sym(a) / to_sym(b))
+                if op == "/" and POLY == "expr":
+                    return from_sym(to_sym(a) / to_sym(b))
+                return TOP
+            if POLY == "expr" and op == "/" and isinstance(a, Aff) and isinstance(b, Aff) and not b.is_const():
+                return from_sym(to_sym(a) / to_sym(b))
             if isinstance(a, Aff) and isinstance(b, Aff):
                 if op == "+":
                     return a + b
@@ -601,10 +701,14 @@ class Sym:
                         o.set(r, c, acc)
                 return o
             s, m = (a, mb) if ma is None else (b, ma)
-            if isinstance(s, Aff):
+            if isinstance(s, (Aff, Poly)):
                 o = Mat(m.R, m.C)
                 o.cells = [amul(s, x) for x in m.cells]
                 return o
+        if op == "/" and ma is not None and POLY == "expr" and isinstance(b, (Aff, Poly)) and not (isinstance(b, Aff) and b.is_const()):
+            o = Mat(ma.R, ma.C)
+            o.cells = [(from_sym(to_sym(x) / to_sym(b)) if isinstance(x, (Aff, Poly)) else TOP) for x in ma.cells]
+            return o
         if op == "/" and ma is not None and isinstance(b, Aff) and b.is_const() and b.c != 0:
             o = Mat(ma.R, ma.C)
             o.cells = [(x.scale(1 / b.c) if isinstance(x, Aff) else TOP) for x in ma.cells]
@@ -641,6 +745,9 @@ class Sym:
         dim = n.get("dim")
         if n.get("noret"):
             raise Raised(str(n.get("targs") or fn))
+        hooked = self.extra_call(n, env, k, fn, obj, args, name, cls, dim)
+        if hooked is not NotImplemented:
+            return hooked
         if k in ("CXXConstructExpr", "CXXTemporaryObjectExpr") and (n.get("elidable") or not n.get("inrepo")):
             real = [a for a in args if not (isinstance(a, dict) and a.get("k") == "CXXDefaultArgExpr")]
             if len(real) == 1 and (n.get("mdim") or cls == "Eigen::Map" or cls.startswith("manif::")):
@@ -657,6 +764,15 @@ class Sym:
                 except Returned as r:
                     return r.val
                 return None
+        # ---- tl::optional -----------------------------------------------------------------
+        if cls == "tl::optional":
+            if name in ("operator bool", "has_value"):
+                return self.ev(obj, env) is not None
+            if k in ("CXXConstructExpr", "CXXTemporaryObjectExpr"):
+                return self.ev(args[0], env) if args else None
+            if k == "CXXOperatorCallExpr" and n.get("op") in ("*", "->"):
+                return self.ev(obj, env)
+            return TOP
         # ---- manif callee: inline --------------------------------------------------------
         if n.get("inrepo"):
             f = self.F.by_id.get(n.get("fid"))
@@ -671,15 +787,6 @@ class Sym:
                 this = None
             argv = [self.ev(a, env) for a in args]
             return self.call_function(f, this, argv)
-        # ---- tl::optional -----------------------------------------------------------------
-        if cls == "tl::optional":
-            if name in ("operator bool", "has_value"):
-                return self.ev(obj, env) is not None
-            if k in ("CXXConstructExpr", "CXXTemporaryObjectExpr"):
-                return self.ev(args[0], env) if args else None
-            if k == "CXXOperatorCallExpr" and n.get("op") in ("*", "->"):
-                return self.ev(obj, env)
-            return TOP
         # ---- std::get on folded arrays handled by iv; other std --------------------------------
         if fn and fn.startswith("std::"):
             if name in ("move", "forward") and args:
